@@ -24,7 +24,8 @@ Proof. exact select_spec. Qed.
 Print Assumptions C20_select.
 
 (** INSERT INTO t [(cols)] SELECT ...: on the guarded domain (existing target on its own grid, every target
-    column present in the result under its name and element type, column list absent or in bucket order) the
+    column present in the result under its name and element type, column list absent or ANY arrangement of
+    Epoch and the target's columns) the
     model of InsertIntoStatement.Materialize + WriteCSM leaves the target as [spec_insert]: the by-NAME
     last-writer-wins insertion of the relational SELECT result, each row in the slot of t's timeframe that
     contains its Epoch. *)
@@ -58,20 +59,13 @@ Theorem C20_slot_on_grid : forall ttfs e, 0 < ttfs ->
   trunc_tf ttfs e mod ttfs = 0 /\ trunc_tf ttfs e <= e < trunc_tf ttfs e + ttfs.
 Proof. exact trunc_tf_aligned. Qed.
 
-(** Full statements (the property as given: ALL select lists with and without aliases, ALL LIMIT values, all
-    matching INSERT column lists): the same without the class guards. *)
+(** Full statement (the property as given: ALL select lists with and without aliases, ALL LIMIT values):
+    the same without the class guards. *)
 Definition C20_full_select : Prop := forall tfs sc rows ps s lim,
   guard tfs sc rows ps = true -> fold_distinct (epoch_name :: map fst sc) = true -> sel_wf sc s = true ->
   exists t, materialize_q tfs sc rows ps s (lim_int lim) = Ok t
     /\ (spec_rows sc rows ps lim <> [] -> t_view t = spec_q sc rows ps s lim)
     /\ (spec_rows sc rows ps lim = [] -> forall n c, In (n, c) (t_view t) -> c = Some []).
-
-Definition C20_full_insert : Prop := forall tfs sc rows ps s lim ttfs tsc tstore (icols : list string) t,
-  guard_q tfs sc rows ps s lim = true ->
-  guard_ins sc s ttfs tsc tstore None = true ->
-  (forall n, In n icols <-> In n (epoch_name :: map fst tsc)) -> NoDup icols ->     (* any order of the target's columns *)
-  materialize_q tfs sc rows ps s (lim_int lim) = Ok t ->
-  insert_into ttfs tsc tstore icols t = Ok (spec_insert ttfs tsc tstore (spec_q sc rows ps s lim)).
 
 (** ---- witnesses: a 1Min bucket of four bars, V = 0..3, W = 10, 11, 12, 13 ---- *)
 Definition base : Z := 1614592800.
@@ -102,15 +96,15 @@ Theorem C20_refuted_alias_twice :
   /\ materialize_q 60 sc2 rows2 [] (SelList [("V", Some "a"); ("V", Some "b")]) 0 = Rejected.
 Proof. vm_compute. split; reflexivity. Qed.
 
-(** 3. insert-column-list-reordered: INSERT INTO t (Epoch, W, V) SELECT * writes W's values into V and V's into W *)
+(** 3. (fixed in /repo by commit 0d39b4d, formerly the finding insert-column-list-reordered)
+    INSERT INTO t (Epoch, W, V) SELECT * now stores V's values in V and W's in W: rows are laid out in the
+    bucket's column order, columns matched by name. *)
 Definition stored (r : Res (list row)) : list (Z * list Z) :=
   match r with Ok l => map (fun x => ((r_epoch x - base) / 60, map (fun c => match c with VI z => z | _ => -1 end) (r_vals x))) l | _ => [(-1, [])] end.
-Theorem C20_refuted_insert_reordered :
-  guard_q 60 sc2 rows2 [] SelAll None = true /\ guard_ins sc2 SelAll 60 sc2 [] None = true
-  /\ insert_list_reordered sc2 (Some ["Epoch"; "W"; "V"]) = true
+Example C20_insert_reordered_list :
+  guard_q 60 sc2 rows2 [] SelAll None = true /\ guard_ins sc2 SelAll 60 sc2 [] (Some ["Epoch"; "W"; "V"]) = true
   /\ stored (do t <- materialize_q 60 sc2 rows2 [] SelAll 0; insert_into 60 sc2 [] ["Epoch"; "W"; "V"] t)
-     = [(0, [10; 0]); (1, [11; 1]); (2, [12; 2]); (3, [13; 3])]
-  /\ stored (Ok (spec_insert 60 sc2 [] (spec_q sc2 rows2 [] SelAll None))) = [(0, [0; 10]); (1, [1; 11]); (2, [2; 12]); (3, [3; 13])].
+     = [(0, [0; 10]); (1, [1; 11]); (2, [2; 12]); (3, [3; 13])].
 Proof. vm_compute. repeat split; reflexivity. Qed.
 
 Theorem C20_refuted_select : ~ C20_full_select.
@@ -125,22 +119,6 @@ Proof.
   specialize (Hv Hne). apply (f_equal ints) in Hv. vm_compute in Hv. discriminate Hv.
 Qed.
 Print Assumptions C20_refuted_select.
-
-Theorem C20_refuted_insert : ~ C20_full_insert.
-Proof.
-  intros H.
-  assert (E : exists t, materialize_q 60 sc2 rows2 [] SelAll (lim_int None) = Ok t) by (vm_compute; eexists; reflexivity).
-  destruct E as [t E].
-  assert (G1 : guard_q 60 sc2 rows2 [] SelAll None = true) by (vm_compute; reflexivity).
-  assert (G2 : guard_ins sc2 SelAll 60 sc2 [] None = true) by (vm_compute; reflexivity).
-  specialize (H 60 sc2 rows2 [] SelAll None 60 sc2 [] ["Epoch"; "W"; "V"] t G1 G2).
-  assert (H1 : forall n, In n ["Epoch"; "W"; "V"] <-> In n (epoch_name :: map fst sc2)).
-  { intros n. cbn. tauto. }
-  assert (H2 : NoDup ["Epoch"; "W"; "V"]).
-  { repeat constructor; cbn; intuition discriminate. }
-  specialize (H H1 H2 E). vm_compute in E. inversion E; subst t. apply (f_equal stored) in H. vm_compute in H. discriminate H.
-Qed.
-Print Assumptions C20_refuted_insert.
 
 (** Non-vacuity: a select list with aliases in another order than the bucket's columns, a WHERE, a LIMIT that
     cuts, and an INSERT into a coarser (5Min) bucket with an existing row meet both guards. *)
